@@ -9,7 +9,7 @@ if [ -z "$ids" ]; then
 fi
 for id in $ids; do
   p=${id%%-*}; k=${id##*-}
-  case $id in *-r2-*) src=/tmp/seed/out2/$p/$k;; *) src=/tmp/seed/out/$p/$k;; esac
+  case $id in *-r3-*) src=/tmp/seed/out3/$p/$k;; *-r2-*) src=/tmp/seed/out2/$p/$k;; *) src=/tmp/seed/out/$p/$k;; esac
   [ -f $src/patch.diff ] || { echo "$id: no source"; continue; }
   checks=${CROSS[$id]:-$p}
   python3 tools/seedtest.py $src --checks $checks > /tmp/final_$id.log 2>&1
